@@ -72,7 +72,11 @@ def gen_cases(rng, tier):
                     b = s["arg"]
                     s["arg"] = (f"{i}" + b)[:8] if "." not in b else (f"{i}" + b.split(".")[0])[:8] + "." + b.split(".", 1)[1]
         cases.append({"is_fd": rng.random() < 0.5, "steps": steps, "verbose": rng.random() < 0.25})
-    return cases, {"random": n}
+    tiny = [{"arg": f"t{k}.d", "content": {"hex": "2a"}} for k in range(112)]
+    for is_fd in (True, False):
+        cases.append({"is_fd": is_fd, "verbose": False, "steps": [tiny, [{"arg": "big.dat", "content": {"rand": 3, "len": 5000}}], [{"arg": "one.d", "content": {"hex": "31"}}],
+                                                                  [{"arg": "b2.dat", "content": {"rand": 4, "len": 2041}}, {"arg": "b3.dat", "content": {"rand": 5, "len": 40000}}]]})
+    return cases, {"random": n, "fixed": 2}
 
 
 def run_case(case, ctx):
